@@ -3,6 +3,7 @@
   Spec: AuthModel.Spec (a plain map id ↦ {login state, tokens, created}); the two store models are
   AuthModel.MemStore and AuthModel.Redis (command sequences over a hash+TTL server).
 -/
+import AuthProofs.StateInventory
 import AuthProofs.StoreSeq
 import AuthProofs.RedisCmd
 namespace AuthProps.C12
@@ -173,6 +174,9 @@ example : (run 5 [] (setTokP 10 4 5 { idToken := B "i", accessToken := B "a" }) 
     = ["hset", "hset", "hdel", "hsetnx", "hget", "expireat"] := by decide
 end Faults
 
+/-- NO HIDDEN STATE: the stores keep nothing but what the model says they keep: regenerated inventory of every package-level variable and struct field of internal/oidc; the Redis store has no mutable field (all its state is server-side), the memory store has its mutex, its map and the four fields of an entry. -/
+theorem no_hidden_state : StoreInventory := store_inventory
+
 end AuthProps.C12
 
 #print axioms AuthProps.C12.memory_refines_spec
@@ -197,3 +201,4 @@ end AuthProps.C12
 #print axioms AuthProps.C12.redis_write_success_is_faultfree
 #print axioms AuthProps.C12.redis_read_success_is_faultfree
 #print axioms AuthProps.C12.redis_fault_is_error
+#print axioms AuthProps.C12.no_hidden_state
